@@ -19,7 +19,7 @@ from __future__ import annotations
 
 import itertools
 
-from ..classify import KEYIDX, linear_index, offset_range
+from ..classify import KEYIDX, linear_index, offset_range, ring_coverage
 from ..engine import Ctx, Finding, RuleResult, cfg_str, trace_of
 from ..loader import AnalysisError
 from ..terms import EV, EVKEY, show, subterms
@@ -129,6 +129,16 @@ class LV:
                 if offset_range(li[2], li[1], loop_iters) is not None:
                     return ("ring", li[1])
         return None
+
+    def _covers(self, child, fam, loop_iters):
+        """Does handling this (generic) child handle every member of its family?"""
+        if fam[0] == "ring":
+            return child[0] == "idx" and ring_coverage(child[1], loop_iters)
+        if fam[0] == "map":
+            # generic group of a loop over iterate_map, or a whole-map reset
+            lv = _loopvars(child)
+            return bool(lv) and any(_is_iterate_map(loop_iters.get(l)) for l in lv)
+        return True
 
     # ---- simulation --------------------------------------------------
     def run(self):
@@ -240,7 +250,7 @@ class LV:
                     st[c][0] = "dead"
                     if kind == "Create":
                         fam = self.family_of(c, loop_iters)
-                        if fam is not None:
+                        if fam is not None and self._covers(c, fam, loop_iters):
                             per_kind[(kind, fam)] = True
                 elif e.op == "set_state":
                     v = e.extra[0] if e.extra else None
@@ -301,7 +311,7 @@ class LV:
                     st[c][1] = "dead"
                     if kind in ("Completed", "Error"):
                         fam = self.family_of(c, loop_iters)
-                        if fam is not None:
+                        if fam is not None and self._covers(c, fam, loop_iters):
                             per_kind[(kind, fam)] = True
             elif e.k == "loopiter":
                 # every child tracked so far must satisfy S = P so that the generic child may alias it
@@ -329,7 +339,7 @@ class LV:
             # "tested" families are recorded so that family coverage can be checked.
             for c in st:
                 fam = self.family_of(c, loop_iters)
-                if fam is not None:
+                if fam is not None and self._covers(c, fam, loop_iters):
                     per_kind[(kind, fam)] = True
             if all_dead and self.kind == "mapper":
                 per_kind[(kind, ("map",))] = True
